@@ -104,6 +104,20 @@ def raw_message(enc, hx, elems, mti='1240'):
     return bytes(out), st
 
 
+def multibyte_bases():
+    """well-framed messages under a multi-byte codec (utf-8): lengths and widths count BYTES on the wire"""
+    e = lambda t: t.encode('utf-8')   # noqa
+    de41 = e('CAF\u00c9 01')                  # 8 bytes, 7 characters
+    de72 = e('\u00c9\u00d1\u00dc text \u20ac 12')
+    de43 = e('CAF\u00c9\\RUE\\PARIS\\75001     IDFFRA')
+    return {
+        'u8_fixed': raw_message('utf-8', False, [(3, b'', e('123456')), (41, b'', de41), (49, b'', e('978'))]),
+        'u8_var': raw_message('utf-8', False, [(2, e('16'), e('5444330011112222')),
+                                               (43, e('%02d' % len(de43)), de43),
+                                               (72, e('%03d' % len(de72)), de72)]),
+    }
+
+
 def zero_length_bases(enc, hx):
     """messages whose variable-length elements are present with length zero (the reference encoder treats empty as
     absent, so these are laid out by hand)"""
